@@ -119,7 +119,8 @@ def Not(x):
 def forall(f, lo, hi):
     """f(j) for every lo <= j < hi"""
     if not _sym(lo, hi):
-        return all(f(j) for j in range(lo, hi))
+        vals = [f(j) for j in range(lo, hi)]
+        return And(*vals) if _sym(*vals) else all(vals)
     j = _bound()
     try:
         body = ops.z3bool(f(Sym(j, 'int')))
@@ -154,7 +155,8 @@ def mkset(f, ek='char'):
 
 def exists(f, lo, hi):
     if not _sym(lo, hi):
-        return any(f(j) for j in range(lo, hi))
+        vals = [f(j) for j in range(lo, hi)]
+        return Or(*vals) if _sym(*vals) else any(vals)
     j = _bound()
     try:
         body = ops.z3bool(f(Sym(j, 'int')))
@@ -178,21 +180,21 @@ def isin(x, chars):
 
 def sqrt(x):
     if _sym(x):
-        return ops.mk(ops.SQRT(ops.z3real(x)), 'real')
+        return ops.mk(ops._uf(ops.SQRT, ops.z3real(x)), 'real')
     return math.sqrt(x)
 
 
 def pow10(x):
     if _sym(x):
-        return ops.mk(ops.POW10(ops.z3real(x)), 'real')
+        return ops.mk(ops._uf(ops.POW10, ops.z3real(x)), 'real')
     if HAVE_Z3 and isinstance(x, (int, Fraction)):
-        return ops.mk(ops.POW10(ops.z3real(x)), 'real')
+        return ops.mk(ops._uf(ops.POW10, ops.z3real(x)), 'real')
     return 10.0 ** float(x)
 
 
 def logb(x, base):
     if _sym(x, base) or (HAVE_Z3 and isinstance(x, Fraction)):
-        return ops.mk(ops.LOGB(ops.z3real(x), ops.z3real(base)), 'real')
+        return ops.mk(ops._uf(ops.LOGB, ops.z3real(x), ops.z3real(base)), 'real')
     return math.log(x, base)
 
 
